@@ -40,7 +40,7 @@ SHAPES = {
 
 def run(c):
     thorough = c.tier == "thorough"
-    c.go2coq_sources = ["filters.go", "filters_types.go", "filters_state.go"]   # private translator build: another family's generator cannot break this check
+    c.go2coq_sources = ["filters.go", "filters_types.go", "filters_state.go", "filters_helpers.go"]   # private translator build: another family's generator cannot break this check
     c.rule = ("one rule per (filter constructor instance | At() | Do() function, capture shape incl. comment-rule captures) with Report(`$x|$$`) and Suggest(`$x`), run under "
               "(TruncateLen, Go version, fresh/reused state) settings; evaluations count engine runs of one rule under one "
               "setting; a case is distinct by (instance, shape, setting) and non-trivial when the rule delivered reports")
